@@ -192,7 +192,7 @@ Definition model_case_of (m : mspec) : case :=
   | MFM via p ops => CaseFM (model_mcase validate_fm (fun _ => true) fm_path fm_defaults via p ops)
   | MHT via p ops => CaseHT (model_mcase validate_ht (fun _ => true) ht_path ht_defaults via p ops)
   | MSV via p ops => CaseSV (model_mcase validate_sv (fun _ => true) sv_path sv_defaults via p ops)
-  | MTK via p ops => CaseTK (model_mcase validate_tk (fun p => c_denom (tk_fee p) =? 1) tk_path tk_defaults via p ops)
+  | MTK via p ops => CaseTK (model_mcase validate_tk (fun p => tk_registered (c_denom (tk_fee p))) tk_path tk_defaults via p ops)
   end.
 
 Definition mspec_wf (m : mspec) : Prop :=
